@@ -8,6 +8,8 @@ import (
 	"github.com/csgura/fp"
 	"github.com/csgura/fp/option"
 	"pgregory.net/rapid"
+
+	"verifharness/kit"
 )
 
 // ---- scalars -----------------------------------------------------------------------
@@ -463,6 +465,12 @@ func domSliceOf[T any, S ~[]T](e dom[T], maxLen int) dom[S] {
 
 // ---- fixed-arity products over int (Tuple1..21, HCons chains) --------------------------
 
+// firstDiffCap: ord.TupleN needs time exponential in the position of the first
+// differing component (about 2x per position, > 1 s per Less call at position 20),
+// so the quick tier only places the *first* difference at positions 0..15; the
+// thorough tier uses every position.
+func firstDiffCap() int { return kit.Pick(15, 1<<30) }
+
 // domFixed: T is isomorphic to [n]int. Near-copies differ at exactly one
 // uniformly chosen position, or at two positions changed in opposite
 // directions (so the first differing position must decide), or are copies.
@@ -470,6 +478,7 @@ func domFixed[T any](n int, to func([]int) T, from func(T) []int) dom[T] {
 	lex := lexRef(cmpInt)
 	comp := rapid.IntRange(-3, 8)
 	delta := rapid.IntRange(1, 3)
+	maxFirst := min(n-1, firstDiffCap())
 	return dom[T]{
 		gen: rapid.Custom(func(t *rapid.T) T {
 			s := make([]int, n)
@@ -489,11 +498,11 @@ func domFixed[T any](n int, to func([]int) T, from func(T) []int) dom[T] {
 				d = -d
 			}
 			if k <= 5 || n < 2 {
-				p := rapid.IntRange(0, n-1).Draw(t, "p")
+				p := rapid.IntRange(0, maxFirst).Draw(t, "p")
 				s[p] += d
 				return to(s), "mutate-1"
 			}
-			p := rapid.IntRange(0, n-2).Draw(t, "p")
+			p := rapid.IntRange(0, min(maxFirst, n-2)).Draw(t, "p")
 			q := rapid.IntRange(p+1, n-1).Draw(t, "q")
 			s[p] += d
 			d2 := delta.Draw(t, "d2")
